@@ -78,6 +78,18 @@ func record(seed int64, tier, out string) {
 		hs = append(hs, hist{uint8(r.Intn(3)), uint8(1 + r.Intn(2)), uint32(256*r.Intn(1<<16) + 250), 16, map[int]bool{}})
 	}
 	msgs := plainMessages(r)
+	// long messages (UL NAS TRANSPORT with a large N1 SM container: whole length just below / above 256 octets, several keystream
+	// blocks; the last one, above 4096 octets, in the thorough tier only) and a bare 5GSM message, at fixed steps of every history
+	var longs [][]byte
+	for _, ln := range []int{243, 250, 300, 700, 1300, 4200} {
+		pl := ev.Bytes(r, ln)
+		longs = append(longs, append(append([]byte{0x7e, 0x00, 0x67, 0x01, byte(ln >> 8), byte(ln)}, pl...), 0x12, byte(1+r.Intn(15))))
+	}
+	nlong := 5
+	if tier == "thorough" {
+		nlong = 6
+	}
+	gsm := []byte{0x2e, byte(1 + r.Intn(15)), 0x01, 0xc1, 0xff, 0xff, 0x91}
 	id := 0
 	for hi, h := range hs {
 		ue := tglib.NewRanUeContext("imsi-2089300007487", 1, h.enc, h.integ)
@@ -92,6 +104,14 @@ func record(seed int64, tier, out string) {
 		nreset := 0
 		for s := 0; s < h.steps; s++ {
 			plain := msgs[r.Intn(len(msgs))]
+			switch s {
+			case 3:
+				plain = longs[hi%nlong]
+			case 10:
+				plain = longs[(hi+3)%nlong]
+			case 6:
+				plain = gsm
+			}
 			hdr := uint8(2)
 			newCtx := h.resets[s]
 			avail := true
@@ -117,6 +137,54 @@ func record(seed int64, tier, out string) {
 				"ulAfter": int(ue.ULCount.Get()), "dlAfter": int(ue.DLCount.Get())})
 			id++
 		}
+	}
+	dual(r, w, msgs, len(hs), &id, tier)
+}
+
+// dual records one history in which several UE contexts with their own keys, algorithms and counters are used alternately: state
+// shared between contexts (a package-level counter, a key slice that aliases another context's) cannot be explained per context.
+func dual(r *rand.Rand, w *ev.Writer, msgs [][]byte, hi int, id *int, tier string) {
+	algs := [][2]uint8{{1, 2}, {2, 1}, {0, 2}}
+	starts := []uint32{0, 254, 1<<24 - 3}
+	var cs []*tglib.RanUeContext
+	for c := 0; c < 3; c++ {
+		ue := tglib.NewRanUeContext(fmt.Sprintf("imsi-20893000074%02d", 80+c), int64(1+c), algs[c][0], algs[c][1])
+		copy(ue.KnasEnc[:], ev.Bytes(r, 16))
+		copy(ue.KnasInt[:], ev.Bytes(r, 16))
+		ue.ULCount.Set(uint16(starts[c]>>8), uint8(starts[c]))
+		dl0 := uint32(r.Intn(1 << 24))
+		ue.DLCount.Set(uint16(dl0>>8), uint8(dl0))
+		w.Emit(ev.M{"ev": "Start", "id": *id, "hist": hi, "ctx": c, "enc": int(algs[c][0]), "int": int(algs[c][1]), "kenc": ev.Ints(ue.KnasEnc[:]),
+			"kint": ev.Ints(ue.KnasInt[:]), "ul": int(ue.ULCount.Get()), "dl": int(ue.DLCount.Get())})
+		*id++
+		cs = append(cs, ue)
+	}
+	steps := 30
+	if tier == "thorough" {
+		steps = 300
+	}
+	order := []int{0, 1, 1, 2, 0, 2, 2, 1, 0, 0}
+	for s := 0; s < steps; s++ {
+		c := order[s%len(order)]
+		if s >= 2*len(order) {
+			c = r.Intn(3)
+		}
+		ue := cs[c]
+		plain := msgs[r.Intn(len(msgs))]
+		hdr := uint8(2)
+		newCtx := s == 13 || s == 17
+		if newCtx {
+			hdr = 3 + uint8((s/4)%2)
+		} else if r.Intn(5) == 0 {
+			hdr = 1
+		}
+		var o []byte
+		var err error
+		p := ev.Catch(func() { o, err = tglib.EncodeNasPduWithSecurity(ue, append([]byte{}, plain...), hdr, true, newCtx) })
+		w.Emit(ev.M{"ev": "Enc", "id": *id, "hist": hi, "ctx": c, "step": s, "hdr": int(hdr), "avail": true, "new": newCtx,
+			"plain": ev.Ints(plain), "out": ev.Ints(o), "err": err != nil || p != "",
+			"ulAfter": int(ue.ULCount.Get()), "dlAfter": int(ue.DLCount.Get())})
+		*id++
 	}
 }
 
